@@ -94,6 +94,11 @@ fn main() {
             typevar::run_typevar(args.u64("seed", 0), args.u64("events", 100_000), &mut out);
             emit(&args, stats_json(&out).set("cmd", J::s("typevar")));
         }
+        "bigcap" => {
+            let mut out = engine::RunOut::new();
+            scale::run_bigcap(args.u64("seed", 0), args.u64("max-n", 100000) as usize, &mut out);
+            emit(&args, stats_json(&out).set("cmd", J::s("bigcap")));
+        }
         "churn" | "hashscale" | "interleave" | "realheap" => {
             let mut out = engine::RunOut::new();
             let seed = args.u64("seed", 0);
